@@ -287,6 +287,36 @@ func wireForA() (*rowdec.Wire, string) {
 	return wireA.w, wireA.why
 }
 
+// evalUnsupportedJSON: a JSON cell holding an opaque value of field type ft
+// (also inside an array), followed by a VARCHAR column, in a two-row WRITE
+// event. The value decoder may refuse field types it cannot render; if it
+// accepts the cell it must consume exactly what the length rule says, so that
+// the column behind it is read from the right place.
+func evalUnsupportedJSON(ft byte, nested bool) (m rowdec.Mismatch, event []byte) {
+	w, why := wireForA()
+	if why != "" {
+		return rowdec.Mismatch{Class: "setup", Why: why}, nil
+	}
+	doc := ref.JOpq(ft, "\x01\x02\x03\x04\x05\x06\x07")
+	if nested {
+		doc = ref.JArr(ref.JI(1), doc, ref.JS("x"))
+	}
+	cell := func(tag byte) ref.Cell { return ref.Cell{Raw: ref.JSONAppendCell(nil, doc, ref.JSONNatural)} }
+	t := &ref.Table{ID: 0x1234, Flags: 1, DB: "db", Name: "t", Cols: []ref.Column{ref.ColInt(ref.TTiny, "lead", false), ref.ColJSON("doc", 4), ref.ColVarchar("name", 20)}}
+	tm, why := w.TableMap(t)
+	if why != "" {
+		return rowdec.Mismatch{Class: "tablemap", Why: why}, nil
+	}
+	e := ref.RowsEvent{Kind: ref.RowWrite, Table: t, Flags: 1, Rows: []ref.RowChange{
+		{After: ref.Image{ref.VInt(ref.TTiny, 1, false), cell('a'), ref.VVarchar(20, []byte("abcd"))}},
+		{After: ref.Image{ref.VInt(ref.TTiny, 2, false), cell('b'), ref.VVarchar(20, []byte("wxyz"))}}}}
+	m = rowdec.Check(w, tm, e, rowdec.Opt{WalkErrorOK: true})
+	if m.Bad() {
+		event = w.EncodeRows(e)
+	}
+	return
+}
+
 // evalA builds and checks one part A case.
 func evalA(c CaseA) (m rowdec.Mismatch, event []byte) {
 	w, why := wireForA()
@@ -1017,6 +1047,8 @@ var columnCounts = []int{1, 2, 3, 4, 7, 8, 9, 16, 17, 64, 250, 251, 300}
 func run(r *chk.Run) {
 	// end-to-end half first (engine E2): the streamer's own walk over the images
 	e2.RunImageWalk(r)
+	// rows of tables whose id lies at the edges of the 4- / 6-byte id field
+	e2.RunTableIDs(r)
 	if r.Violated() {
 		r.SetExhaustive(false)
 		return
@@ -1082,6 +1114,31 @@ func run(r *chk.Run) {
 			famCount[c.Family]++
 			if m.Bad() {
 				reportA(r, c, m, ev)
+			}
+		}
+	}
+	if !stop.Load() && os.Getenv("C09_ONLY") != "B" {
+		// JSON cells the value decoder may refuse (opaque values of every field
+		// type code): refused or consumed exactly
+		for ft := 0; ft < 256; ft++ {
+			switch ft {
+			case ref.TDate, ref.TTime, ref.TDateTime, ref.TTimestamp, ref.TNewDecimal:
+				continue // rendered field types: their payloads must be well-formed (C14's domain)
+			}
+			for _, nested := range []bool{false, true} {
+				m, ev := evalUnsupportedJSON(byte(ft), nested)
+				evalsA.Add(1)
+				if m.Bad() {
+					ftc, nst := byte(ft), nested
+					r.Report(chk.Violation{Key: "A:json-opaque:" + m.Class,
+						What:   fmt.Sprintf("JSON cell holding an opaque value of field type %d (nested=%v), followed by a VARCHAR column, 2-row WRITE event %s: %s", ft, nested, clipHex(ev), m.Why),
+						Kind:   "jsonopaque",
+						Replay: map[string]interface{}{"field_type": ft, "nested": nested},
+						Recheck: func() string {
+							m2, _ := evalUnsupportedJSON(ftc, nst)
+							return m2.Why
+						}})
+				}
 			}
 		}
 	}
@@ -1189,6 +1246,18 @@ func replay(kind string, input json.RawMessage) (bool, string) {
 	switch kind {
 	case "history":
 		return e2.ReplayHistory(kind, input)
+	case "tableid":
+		return e2.ReplayTableID(input)
+	case "jsonopaque":
+		var in struct {
+			FieldType int  `json:"field_type"`
+			Nested    bool `json:"nested"`
+		}
+		if err := json.Unmarshal(input, &in); err != nil {
+			return false, err.Error()
+		}
+		m, _ := evalUnsupportedJSON(byte(in.FieldType), in.Nested)
+		return m.Bad(), m.Why
 	case "A":
 		var c CaseA
 		if err := json.Unmarshal(input, &c); err != nil {
